@@ -307,6 +307,9 @@ class ShapeEval:
                 mapping, env2 = {}, dict(env)
                 for i, a in enumerate(args):
                     pt = ("arg", i + 1, cb.names.get(i + 1))
+                    if unref(a)[0] in ("str", "int", "strs", "fn", "zst", "const") or mir.closure_of(a)[0]:
+                        mapping[pt] = a       # literals and closures are read as terms by the rules of the vocabulary
+                        continue
                     try:
                         env2[pt] = self.ev(b, a, env)
                     except Unrecognised:
